@@ -166,6 +166,10 @@ def handle (op : String) (a : Json) : P Json := do
     let d ← asDoc (← field a "tree")
     let cs ← getList asStr a "countries"
     pure <| resJ solJ (decodeDoc codec (cs.map String.toList) d)
+  | "dict_of" =>
+    -- `{s.planning_problem_id: s for s in planning_problem_solutions}.values()`
+    let ps ← getList asPPS a "pps"
+    pure <| arrJ ppsJ (dictOf ps)
   | "decode_tokens" =>
     let r ← asRoot (← field a "tree")
     pure <| resJ solJ (decodeSol codec r)
